@@ -31,7 +31,7 @@ pub fn check() -> Check {
         replay,
         floor_quick: 5_000,
         floor_thorough: 100_000,
-        rule: "G1: breadth-first closure of the ideal editor's states for command buffers of 0..=10 (quick) / 0..=13 (thorough) bytes over {a, e-acute, bitcoin sign, G-clef}; every (state, op) edge - insert of each character, two multi-character inserts (recall path), Backspace, Left, Right, delete-at-cursor, clear - \
+        rule: "G1: breadth-first closure of the ideal editor's states for command buffers of 0..=10 (quick) / 0..=13 (thorough) bytes over {a, e-acute, bitcoin sign, G-clef} and over lead-byte boundary characters {a, U+07EA, U+0E01, U+10000}; every (state, op) edge - insert of each character, two multi-character inserts (recall path), Backspace, Left, Right, delete-at-cursor, clear - \
                is replayed on a fresh real Editor and text, cursor, len() and every text_range() are compared. G2: random sessions through a whole Cli (as C01; recall and completion replace the model line by the observed one), line and cursor compared after every byte. \
                Non-trivial = the op acts strictly inside a line containing characters of at least two different encoded lengths, or is a rejected insertion; distinct by (line, cursor, op).",
         assumptions: &[
@@ -52,8 +52,10 @@ enum EOp {
     Clear,
 }
 
-fn ops() -> Vec<EOp> {
-    let mut v: Vec<EOp> = ["a", "é", "₿", "𝄞", "aé", "₿𝄞a"].iter().map(|s| EOp::Insert(s.to_string())).collect();
+fn ops(alphabet: usize) -> Vec<EOp> {
+    // two alphabets: common characters of each length, and characters on the lead-byte boundaries (DF, E0, F0)
+    let table: [&[&str]; 2] = [&["a", "é", "₿", "𝄞", "aé", "₿𝄞a"], &["a", "ߪ", "ก", "𐀀", "ࠀa", "\u{10fffd}ߪ"]];
+    let mut v: Vec<EOp> = table[alphabet].iter().map(|s| EOp::Insert(s.to_string())).collect();
     v.extend([EOp::Backspace, EOp::Left, EOp::Right, EOp::Delete, EOp::Clear]);
     v
 }
@@ -181,10 +183,10 @@ fn op_code(op: &EOp) -> Value {
 
 fn run_shard(ctx: &ShardCtx) {
     let max_cap = ctx.tier.pick(10usize, 13usize);
-    let all_ops = ops();
     let mut idx = 0u64;
     let mut states_total = 0u64;
-    'caps: for cap in 0..=max_cap {
+    'caps: for (alphabet, cap) in (0..=max_cap).map(|c| (0usize, c)).chain((0..=max_cap.saturating_sub(1)).map(|c| (1usize, c))) {
+        let all_ops = ops(alphabet);
         // BFS over model states (every shard walks the same closure and checks its share of edges)
         let mut seen: HashSet<RefEditor> = HashSet::new();
         let mut queue: VecDeque<RefEditor> = VecDeque::new();
